@@ -159,6 +159,7 @@ Definition mem_chsize (e : entry) (lastreg : option Z) : Z :=
             end in
   if (c1 =? 0) && negb (e_size e =? 0) then e_size e else c1.
 
+(* the digest a chunk is reported with: ChunkDigest, else the entry's Digest (both stores since fix-10) *)
 Definition mem_dg (e : entry) : Z := if e_cdg e =? 0 then e_dg e else e_cdg e.
 
 Definition mem_chunk (e : entry) (lastreg : option Z) : chunk :=
@@ -441,7 +442,7 @@ Definition d_add_chunk (s : dst) (e : entry) (cs : Z) : dst :=
     match ds_last s with
     | Some i =>
         match nth_error (ds_nodes s) i with
-        | Some n => d_set_nodes s (upd (ds_nodes s) i (DN (dn_b n) (dn_ch n) (dn_chunks n ++ [CH (e_choff e) cs (e_cdg e) (e_off e)])))
+        | Some n => d_set_nodes s (upd (ds_nodes s) i (DN (dn_b n) (dn_ch n) (dn_chunks n ++ [CH (e_choff e) cs (mem_dg e) (e_off e)])))
         | None => s
         end
     | None => s
@@ -533,9 +534,8 @@ Section DbWalk.
     end.
 End DbWalk.
 
-(* [null] : the TOC JSON has "entries":null (what the writer emits for an empty tar): initNodes never finds "[" *)
-Definition view_db (null : bool) (toc : list entry) (probes : list Z) : result :=
-  if null then None else
+(* a TOC object without an entries array ("entries":null) is the empty entry list in both stores (fix-9) *)
+Definition view_db (toc : list entry) (probes : list Z) : result :=
   match db_build toc with
   | None => None
   | Some s => Some (assign_inos (db_walk s probes (S (length (ds_nodes s))) O []))
@@ -651,12 +651,12 @@ Definition result_eqb (a b : result) : bool :=
   | _, _ => false
   end.
 
-(* a case = ("entries":null?, decoded TOC, probe offsets, view observed on the memory store, view observed on the db store) *)
-Definition case := (bool * list entry * list Z * result * result)%type.
+(* a case = (decoded TOC, probe offsets, view observed on the memory store, view observed on the db store) *)
+Definition case := (list entry * list Z * result * result)%type.
 
 Definition case_ok (c : case) : bool :=
-  let '(null, toc, probes, om, od) := c in
-  result_eqb (view_mem toc probes) om && result_eqb (view_db null toc probes) od.
+  let '(toc, probes, om, od) := c in
+  result_eqb (view_mem toc probes) om && result_eqb (view_db toc probes) od.
 
 Fixpoint mismatches_from (n : nat) (cs : list case) : list nat :=
   match cs with
@@ -679,7 +679,7 @@ Definition file_mem_lookup (r : entry) (cs : list entry) (off : Z) : option (Z *
     if off >=? c_size c then None else Some (c_choff c, c_size c, c_dg c)
   else chunk_search ents off.
 
-Definition db_chunk (e : entry) (lastsize : Z) : chunk := CH (e_choff e) (db_chsize e lastsize) (e_cdg e) (e_off e).
+Definition db_chunk (e : entry) (lastsize : Z) : chunk := CH (e_choff e) (db_chsize e lastsize) (mem_dg e) (e_off e).
 
 Definition file_db_stored (r : entry) (cs : list entry) : list chunk :=
   (if e_size r >? 0 then [db_chunk r (e_size r)] else [])
